@@ -222,6 +222,14 @@ func (g *Gen) typeRef(s *Scope) *TypeRef {
 	if g.Typedefs && g.pick(10) == 0 {
 		return g.special(s)
 	}
+	if g.Typedefs && g.pick(6) == 0 {
+		// an integer with a range restriction, written in canonical form (sorted, disjoint,
+		// not adjacent), which every type derived from it inherits
+		if g.pick(2) == 0 {
+			return &TypeRef{Name: "int8", Range: []string{"1..10", "-5..5|20..30", "-128..-1", "0", "-128..-100|-3|7..127"}[g.pick(5)], Scope: s}
+		}
+		return &TypeRef{Name: "uint32", Range: []string{"1..10", "0..100|200..300", "4294967295", "0|2|4..4294967294"}[g.pick(4)], Scope: s}
+	}
 	if g.TypeErrors && g.pick(40) == 0 {
 		// error side: a name nothing defines, behind no prefix, the own prefix or an unknown prefix
 		bad := g.name("nosuch")
